@@ -172,6 +172,13 @@ def apply_step(pool, step, cfg):
         return [pool[step[1]].diag()]
     if op == "flip_charges":
         return [pool[step[1]].flip_charges(axes=tuple(step[2]))]
+    if op == "zero_block":
+        c = pool[step[1]].copy()
+        k = step[2] % len(c.struct.t)
+        c.set_block(ts=c.struct.t[k], Ds=c.struct.D[k], val="zeros")
+        return [c]
+    if op == "remove_zero_blocks":
+        return [pool[step[1]].remove_zero_blocks()]
     if op == "to_dict":
         t = pool[step[1]]
         return [yastn.Tensor.from_dict(t.to_dict(level=step[2]), config=cfg)]
@@ -256,7 +263,7 @@ def propose(pool, rng, fermionic):
         return rng.choices(c, weights=w)[0]
     kind = rng.choice(("transpose", "conj", "scale", "add", "tensordot", "tensordot", "tensordot", "trace", "fuse", "fuse",
                        "unfuse", "svd", "qr", "add_leg", "remove_leg", "vdot", "norm", "swap_gate", "ncon", "broadcast",
-                       "mask", "lazy", "diag", "flip_charges", "to_dict"))
+                       "mask", "lazy", "diag", "flip_charges", "to_dict", "zero_block", "remove_zero_blocks"))
     if kind == "transpose":
         i = pick(lambda t: t.ndim >= 2 and not t.isdiag)
         if i is None:
@@ -418,6 +425,16 @@ def propose(pool, rng, fermionic):
         return ("flip_charges", i, rng.sample(range(a.ndim), rng.randint(1, a.ndim)))
     if kind == "to_dict":
         return ("to_dict", pick(), rng.choice((0, 1, 2)))
+    if kind == "zero_block":
+        i = pick(lambda t: len(t.struct.t) >= 2 and tuple(t.trans) == tuple(range(t.ndim_n)))
+        if i is None:
+            return None
+        return ("zero_block", i, rng.randrange(64))
+    if kind == "remove_zero_blocks":
+        i = pick(lambda t: t.size > 0 and any(not np.any(t._data[slice(*sl.slcs[0])]) for sl in t.slices))
+        if i is None:
+            i = pick()
+        return ("remove_zero_blocks", i)
     return None
 
 
